@@ -43,7 +43,16 @@ type SliceV struct {
 	cap      int
 }
 
-type PtrV struct{ c *Cell }
+type PtrV struct {
+	c   *Cell
+	sym *SymRef // non-nil: element of arr at a symbolic index (read = ite chain)
+}
+
+type SymRef struct {
+	arr    *ArrObj
+	off, n int
+	idx    *Term // 64-bit, known to be < n on this path
+}
 
 type IfaceV struct {
 	t types.Type
@@ -75,6 +84,8 @@ type Cell struct {
 	n    int     // array view length
 	t    types.Type
 	born uint32
+	parr *ArrObj // backing array this cell is an element of (for unsafe.String/Slice)
+	pidx int
 }
 
 type ArrObj struct {
@@ -242,6 +253,7 @@ func (in *Interp) elem(a *ArrObj, i int) *Cell {
 		in.epoch = a.born
 		c = in.newCell(a.et)
 		in.epoch = save
+		c.parr, c.pidx = a, i
 		a.cells[i] = c
 	}
 	return c
